@@ -12,6 +12,9 @@ Decided (structural):
  R3 K2  FactCount: the counter is incremented only on the fact_match true edge and the loop asks for
         another fact only on the `count < limit` edge (the limit caps matches, not facts visited).
  R4 K1  Update = fact_query lookup -> compare -> fact_delete -> fact_insert, in that order.
+ R5 K2  the committed fact index is a chain of layers: LinearFactIndex::query_prefix_inner returns its
+        matches only on the no-prior-layer edge of the walk (a layer without facts of the queried name is
+        skipped, not the end of the walk), errors aside.
 Not decided: end-to-end equality with a model store over all fact sets (value-level)."""
 from rules.core import pat
 from rules.core.facts import Operand, PASS_THROUGH
@@ -31,8 +34,30 @@ def arm_bodies(F, f, region):
     return cls
 
 
+def layer_walk_rule(F, rep):
+    f = F.fn("aranya_runtime::storage::linear::LinearFactIndex::query_prefix_inner")
+    oks = pat.ok_returns(f)
+    sws = []
+    for b, arms, other, dst in f.discr_switches("option::Option"):
+        from rules.core.facts import Place
+        src = Place(dst.rv[1])
+        ty = f.local_ty(src.local)
+        if not src.proj and "FactIndexRepr" in ty and "Option<&" in ty.replace(" ", ""):
+            sws.append((b, arms, other))
+    ok = len(sws) == 1 and bool(oks)
+    if ok:
+        b, arms, other = sws[0]
+        none_t = arms.get("None", other)
+        ok = "Some" in arms and all(pat.only_via_edge(f, (b, none_t), [s.bb]) for s in oks)
+    rep.check(ok, "LinearFactIndex::query_prefix_inner|walks-every-layer", "K2 guarded-by",
+              "the prefix query over the committed fact index returns Ok only from the `no prior layer` edge of its walk",
+              "LinearFactIndex::query_prefix_inner can return its matches before the chain of index layers is exhausted (an exit other than the `prior == None` edge): "
+              "facts stored under the queried name in older layers disappear from query / exists / count / map once a newer layer lacks that name", f.site())
+
+
 def run(F, rep, tier):
     rep.explanation = __doc__
+    layer_walk_rule(F, rep)
     step = F.fn("aranya_policy_vm::machine::RunState::step")
     sws = step.discr_switches("instructions::Instruction")
     outer = None
